@@ -138,7 +138,7 @@ func term(v ssa.Value, depth int, onstack map[ssa.Value]bool) string {
 	case *ssa.Extract:
 		return term(x.Tuple, depth+1, onstack) + "#" + fmt.Sprint(x.Index)
 	case *ssa.Call:
-		return callTerm(&x.Call, depth, onstack)
+		return callTerm(&x.Call, depth, onstack) + callOrdinal(x)
 	case *ssa.BinOp:
 		return "(" + term(x.X, depth+1, onstack) + " " + x.Op.String() + " " + term(x.Y, depth+1, onstack) + ")"
 	case *ssa.Phi:
@@ -149,13 +149,13 @@ func term(v ssa.Value, depth int, onstack map[ssa.Value]bool) string {
 		}
 		onstack[x] = true
 		var es []string
-		seen := map[string]bool{}
+		seenV := map[ssa.Value]bool{}
 		for _, e := range x.Edges {
-			s := term(e, depth+1, onstack)
-			if !seen[s] {
-				seen[s] = true
-				es = append(es, s)
+			if seenV[e] {
+				continue
 			}
+			seenV[e] = true
+			es = append(es, term(e, depth+1, onstack))
 		}
 		delete(onstack, x)
 		sort.Strings(es)
@@ -356,4 +356,49 @@ func loopCarried(p *ssa.Phi) bool {
 		return false
 	}
 	return walk(p, 0)
+}
+
+// Distinct call instructions of one function that render to the same text (same callee, same
+// argument terms — e.g. two reads of the chain head) are told apart by an ordinal suffix @k in
+// block order, so that term equality never identifies two different call results.
+var (
+	ordCache    = map[*ssa.Function]map[*ssa.Call]string{}
+	ordBuilding = map[*ssa.Function]bool{}
+)
+
+func callOrdinal(c *ssa.Call) string {
+	fn := c.Parent()
+	if fn == nil || ordBuilding[fn] {
+		return ""
+	}
+	m, ok := ordCache[fn]
+	if !ok {
+		ordBuilding[fn] = true
+		groups := map[string][]*ssa.Call{}
+		for _, b := range fn.Blocks {
+			for _, i := range b.Instrs {
+				if cl, ok := i.(*ssa.Call); ok {
+					if _, isB := cl.Call.Value.(*ssa.Builtin); isB {
+						continue
+					}
+					k := callTerm(&cl.Call, 0, map[ssa.Value]bool{})
+					groups[k] = append(groups[k], cl)
+				}
+			}
+		}
+		delete(ordBuilding, fn)
+		m = map[*ssa.Call]string{}
+		for _, g := range groups {
+			if len(g) < 2 {
+				continue
+			}
+			for k, cl := range g {
+				if k > 0 {
+					m[cl] = fmt.Sprintf("@%d", k+1)
+				}
+			}
+		}
+		ordCache[fn] = m
+	}
+	return m[c]
 }
